@@ -632,7 +632,45 @@ func decodeFlagPaths(data []byte) (vals []ldmodel.FeatureFlag, errs []error, nam
 	if e3 == nil {
 		e3 = rd.RequireEOF()
 	}
-	return []ldmodel.FeatureFlag{f1, f2, f3}, []error{e1, e2, e3}, []string{"serialization", "encoding/json", "jreader"}
+	// encoding/json into a destination that has been decoded into before (a variable reused in a
+	// loop, an element of a slice decoded twice): the result must not depend on what it held
+	f4 := usedFlagDestination()
+	e4 := json.Unmarshal(data, &f4)
+	if e4 != nil {
+		f4 = f2 // on error the destination keeps its old content; nothing to compare
+	}
+	return []ldmodel.FeatureFlag{f1, f2, f3, f4}, []error{e1, e2, e3, e4},
+		[]string{"serialization", "encoding/json", "jreader", "encoding/json into a previously used destination"}
+}
+
+const richFlagDoc = `{"key":"old","version":41,"on":true,"salt":"old-salt","prerequisites":[{"key":"p","variation":1}],` +
+	`"targets":[{"variation":1,"values":["old-a","old-b"]}],"contextTargets":[{"contextKind":"org","variation":0,"values":["old-org"]}],` +
+	`"rules":[{"id":"old-rule","variation":1,"trackEvents":true,"clauses":[{"contextKind":"user","attribute":"/a/b","op":"in","values":["x",1,true],"negate":true}]},` +
+	`{"id":"old-rule-2","rollout":{"kind":"experiment","seed":7,"contextKind":"org","bucketBy":"/k","variations":[{"variation":0,"weight":100000,"untracked":true}]},"clauses":[]}],` +
+	`"fallthrough":{"rollout":{"variations":[{"variation":1,"weight":50000},{"variation":0,"weight":50000}]}},"offVariation":1,` +
+	`"variations":["old0","old1",{"o":1},[1,2]],"clientSideAvailability":{"usingMobileKey":true,"usingEnvironmentId":true},"clientSide":true,` +
+	`"trackEvents":true,"trackEventsFallthrough":true,"debugEventsUntilDate":1600000000000,"deleted":true,"samplingRatio":3,` +
+	`"excludeFromSummaries":true,"migration":{"checkRatio":5}}`
+
+const richSegmentDoc = `{"key":"old-seg","version":9,"generation":4,"deleted":true,"included":["a1","a2"],"excluded":["x1"],` +
+	`"includedContexts":[{"contextKind":"org","values":["o1"]}],"excludedContexts":[{"contextKind":"device","values":["d1"]}],` +
+	`"salt":"old-salt","unbounded":true,"unboundedContextKind":"org",` +
+	`"rules":[{"id":"sr","clauses":[{"attribute":"email","op":"endsWith","values":["@x"],"negate":false}],"weight":30000,"bucketBy":"email","rolloutContextKind":"org"}]}`
+
+func usedFlagDestination() ldmodel.FeatureFlag {
+	var f ldmodel.FeatureFlag
+	if err := json.Unmarshal([]byte(richFlagDoc), &f); err != nil {
+		panic("harness: richFlagDoc does not decode: " + err.Error())
+	}
+	return f
+}
+
+func usedSegmentDestination() ldmodel.Segment {
+	var s ldmodel.Segment
+	if err := json.Unmarshal([]byte(richSegmentDoc), &s); err != nil {
+		panic("harness: richSegmentDoc does not decode: " + err.Error())
+	}
+	return s
 }
 
 func decodeSegmentPaths(data []byte) (vals []ldmodel.Segment, errs []error, names []string) {
@@ -646,7 +684,13 @@ func decodeSegmentPaths(data []byte) (vals []ldmodel.Segment, errs []error, name
 	if e3 == nil {
 		e3 = rd.RequireEOF()
 	}
-	return []ldmodel.Segment{f1, f2, f3}, []error{e1, e2, e3}, []string{"serialization", "encoding/json", "jreader"}
+	f4 := usedSegmentDestination()
+	e4 := json.Unmarshal(data, &f4)
+	if e4 != nil {
+		f4 = f2 // on error the destination keeps its old content; nothing to compare
+	}
+	return []ldmodel.Segment{f1, f2, f3, f4}, []error{e1, e2, e3, e4},
+		[]string{"serialization", "encoding/json", "jreader", "encoding/json into a previously used destination"}
 }
 
 func encodeFlagPaths(f ldmodel.FeatureFlag) (outs [][]byte, errs []error, names []string) {
@@ -815,7 +859,10 @@ func mutateBytes(r *rng, data []byte) []byte {
 	}
 	for i, n := 0, 1+r.intn(3); i < n; i++ {
 		p := r.intn(len(out))
-		switch r.intn(6) {
+		switch r.intn(7) {
+		case 6:
+			// a complete document followed by something else
+			out = append(out, pick(r, []string{"x", "null", "{}", " 1", ",", "]", "}", "\n\"a\"", "\x00", " \t\n true"})...)
 		case 0:
 			out = out[:p] // truncate
 		case 1:
